@@ -23,8 +23,9 @@
      fix_f02  createValueAndVerify returns an error when the claimed sender is
               not a node of the tree (pinned code: builds a zero value and
               delivers it)
-     fix_f03  TransmitMsg refuses a message without sender token (pinned code:
-              the nil token is dereferenced in aggregate / createValueAndVerify) *)
+     fix_f03  dispatchMsgToProtocol refuses a message without sender token
+              before anything reads it (pinned code: the nil token is
+              dereferenced in aggregate / createValueAndVerify) *)
 From Coq Require Import List Arith Bool.
 Import ListNotations.
 
@@ -81,10 +82,9 @@ Record pmsg := { p_from : option nat; p_peer : peer; p_type : nat; p_payload : n
 
 Definition is_none {A} (o : option A) : bool := match o with None => true | Some _ => false end.
 
-(* Overlay.Process + the head of TransmitMsg.  None = refused by the overlay. *)
-Definition process (fix_f03 : bool) (env : peer) (w : wmsg) : option pmsg :=
-  if fix_f03 && is_none (w_from w) then None
-  else Some {| p_from := w_from w; p_peer := env; p_type := w_type w; p_payload := w_payload w |}.
+(* Overlay.Process: From/To/type/body from the wire, identity from the envelope *)
+Definition process (env : peer) (w : wmsg) : pmsg :=
+  {| p_from := w_from w; p_peer := env; p_type := w_type w; p_payload := w_payload w |}.
 
 (* ------------------------------------------------- createValueAndVerify -- *)
 
@@ -169,7 +169,7 @@ Inductive status :=
 | SUnhandled   (* message-type not handled by the protocol *)
 | SRecovered   (* panic caught by dispatchChannel's recover *)
 | SCrash       (* panic in the dispatch goroutine: the process exits *)
-| SRefused.    (* refused by the overlay before reaching the instance *)
+| SRefused.    (* refused by TransmitMsg: no such node in the tree, no instance *)
 
 (* aggregated form: every element is built first, then ONE call / send *)
 Fixpoint verify_all (fix_f02 : bool) (ns : list ninfo) (l : list pmsg) : list elem * status :=
@@ -220,7 +220,7 @@ Definition dispatch (fix_f02 : bool) (ns : list ninfo) (ty : nat) (k : kind) (ag
 Definition agg_flag (r : regs) (ty : nat) : bool :=
   match lookup r ty with Some (_, a) => a | None => false end.
 
-Definition step (fix_f02 : bool) (ns : list ninfo) (me : ninfo) (r : regs) (q : queue) (m : pmsg)
+Definition step_core (fix_f02 : bool) (ns : list ninfo) (me : ninfo) (r : regs) (q : queue) (m : pmsg)
   : queue * (list delivery * status) :=
   match aggregate me (agg_flag r (p_type m)) q m with
   | (q', APanic) => (q', ([], SCrash))
@@ -231,6 +231,12 @@ Definition step (fix_f02 : bool) (ns : list ninfo) (me : ninfo) (r : regs) (q : 
       | Some (k, agg) => (q', dispatch fix_f02 ns (p_type m) k agg l)
       end
   end.
+
+(* the repaired dispatchMsgToProtocol starts with "if onetMsg.From == nil { return error }" *)
+Definition step (fix_f02 fix_f03 : bool) (ns : list ninfo) (me : ninfo) (r : regs) (q : queue) (m : pmsg)
+  : queue * (list delivery * status) :=
+  if fix_f03 && is_none (p_from m) then (q, ([], SErr))
+  else step_core fix_f02 ns me r q m.
 
 (* -------------------------------------------- several instances, a history -- *)
 
@@ -270,17 +276,15 @@ Definition step_inj (f : fixes) (c : config) (s : qstate) (x : inj) : qstate * s
   | None => (s, RBadConfig)
   | Some to_id =>
       let ns := nodes (c_tree c) in
-      match process (fix_f03 f) (i_env x) (i_wire x) with
+      let m := process (i_env x) (i_wire x) in
+      (* TransmitMsg: the instance sits on the node Tree.Search finds for
+         To.TreeNodeID ("No TreeNode defined in this tree here" otherwise) *)
+      match search ns to_id with
       | None => (s, RStep [] SRefused)
-      | Some m =>
-          (* TransmitMsg: the instance sits on the node Tree.Search finds for
-             To.TreeNodeID ("No TreeNode defined in this tree here" otherwise) *)
-          match search ns to_id with
-          | None => (s, RStep [] SRefused)
-          | Some (_, me) =>
-              let '(q', (ds, st)) := step (fix_f02 f) ns me (c_regs c) (sget s (i_inst x)) m in
-              (sset s (i_inst x) q', RStep ds st)
-          end
+      | Some (_, me) =>
+          let '(q', (ds, st)) :=
+            step (fix_f02 f) (fix_f03 f) ns me (c_regs c) (sget s (i_inst x)) m in
+          (sset s (i_inst x) q', RStep ds st)
       end
   end.
 
